@@ -18,7 +18,8 @@ A scenario is plain data (replayable):
          "fw" (wsgi.file_wrapper), "fwoff" (wsgi.file_wrapper over a file of the operating system that is
          read from an offset; no Content-Length of the application's), "nocl" (generator without Content-Length),
          "raise0" (exception before output), "raise1" (exception after first chunk),
-         "short" (declares n bytes, produces n-3), "short0" (declares n bytes, produces none)
+         "short" (declares n bytes, produces n-3), "short0" (declares n bytes, produces none),
+         "exit0" (raises SystemExit before any output)
 """
 
 import io
@@ -74,7 +75,7 @@ def closes_connection(req):
         return True
     if v == "1.0" and not req.get("keepalive"):
         return True
-    if k in ("nocl", "raise0", "raise1", "short", "short0"):
+    if k in ("nocl", "raise0", "raise1", "short", "short0", "exit0"):
         return True
     if "raw" in req:
         return bool(req.get("refused", True))
@@ -123,6 +124,8 @@ def make_app(world, log, hooks=None):
             hdrs = [("Content-Type", "application/octet-stream"), ("X-Req", "%d-%d" % (cid, idx))]
             if k == "raise0":
                 raise apps.AppError("app-failure-%d-%d" % (cid, idx))
+            if k == "exit0":
+                raise SystemExit("app-failure-%d-%d" % (cid, idx))
             if k in ("cl", "chunks", "write", "gen", "fw", "short", "short0", "raise1", "stream", "wgate"):
                 hdrs.append(("Content-Length", str(n)))
             if environ["REQUEST_METHOD"] == "HEAD":
